@@ -1,16 +1,19 @@
 #!/bin/sh
-# tools/seed_eval.sh <PROP> <seed-dir> [extra props...] : confirm a seeded change (demo passes without / fails with the patch,
-# the stable tests still pass) and run ./check on it.  /repo is restored afterwards.  Prints a summary.
+# tools/seed_eval.sh <PROP> <seed-dir> [extra props...] : confirm a seeded change on the scratch worktree /tmp/wt-eval
+# (demo passes without / fails with the patch, the 82 stable tests still pass) and run ./check against that tree
+# (DREYE_REPO=/tmp/wt-eval).  /repo itself is never touched.
 PROP=$1; SD=$2; shift 2
-cd /repo || exit 2
-git diff --quiet || { echo "repo dirty"; exit 2; }
-cp "$SD/demo.py" /repo/_seed_demo.py
+W=/tmp/wt-eval
+[ -d $W ] || git -C /repo worktree add -q --detach $W HEAD
+git -C $W checkout -q --detach $(git -C /repo rev-parse HEAD) && git -C $W checkout -- . || exit 2
+cd $W || exit 2
+cp "$SD/demo.py" $W/_seed_demo.py
 /venv/bin/python -W ignore _seed_demo.py >/dev/null 2>&1; echo "demo without patch: exit $?"
 git apply "$SD/patch.diff" || { echo "patch does not apply"; rm -f _seed_demo.py; exit 2; }
 /venv/bin/python -W ignore _seed_demo.py >/dev/null 2>&1; echo "demo with patch: exit $?"
 /venv/bin/python -m pytest -q -p no:cacheprovider $(cat /verif/tools/stable_tests.txt) 2>&1 | tail -1
 for P in $PROP "$@"; do
-  (cd /verif && timeout 1800 ./check $P --tier quick 2>&1 | grep -E "VIOLATION|KNOWN|^\[|UNDECIDED|CHECKER" | cut -c1-260 | head -8)
+  (cd /verif && DREYE_REPO=$W VERIF_DEADLINE=${VERIF_DEADLINE:-600} VERIF_EVIDENCE_DIR=/tmp/ev-scratch timeout 1800 ./check $P --tier quick 2>&1 | grep -E "VIOLATION|KNOWN|^\[|UNDECIDED|CHECKER" | cut -c1-260 | head -8)
 done
-rm -f /repo/_seed_demo.py
-git -C /repo checkout -- . ; git -C /repo status --short | head -3
+rm -f $W/_seed_demo.py
+git -C $W checkout -- .
